@@ -92,7 +92,7 @@ def repo_tests(wt, file):
 
 def filt_one(args):
     file, idx, slot = args
-    wt = "/tmp/mutwt/f%d" % slot
+    wt = "/tmp/mutwt/f%d-%d" % (os.getpid(), slot)
     sh("git checkout -q -- . && git clean -fdq", cwd=wt)
     rc, desc = sh("%s -file /repo/%s -n %d -out %s/%s" % (MUT, file, idx, wt, file))
     if rc != 0:
@@ -115,7 +115,7 @@ def phase1(file, stride):
     idxs = list(range(0, n, stride))
     workers = 8
     for s in range(workers):
-        worktree("f%d" % s)
+        worktree("f%d-%d" % (os.getpid(), s))
     res = {}
     try:
         # a slot per worker: tasks are dealt round-robin and each worker processes its own list sequentially
@@ -128,7 +128,7 @@ def phase1(file, stride):
                     res[idx] = {"kind": kind, "desc": desc}
     finally:
         for s in range(workers):
-            drop("/tmp/mutwt/f%d" % s)
+            drop("/tmp/mutwt/f%d-%d" % (os.getpid(), s))
     path = os.path.join(OUT, file.replace("/", "_") + ".survivors.json")
     json.dump({"file": file, "mutants": n, "stride": stride, "results": res}, open(path, "w"), indent=1)
     kinds = {}
@@ -140,7 +140,7 @@ def phase1(file, stride):
 def phase2(file):
     path = os.path.join(OUT, file.replace("/", "_") + ".survivors.json")
     d = json.load(open(path))
-    wt = worktree("run")
+    wt = worktree("run-%d" % os.getpid())
     out = {}
     try:
         for idx, r in sorted(d["results"].items(), key=lambda kv: int(kv[0])):
